@@ -8,6 +8,10 @@ import Abmarl.Lemmas.MoversInactive
   returns without error and its outcome satisfies the decidable specification `specC12`
   (`specMoveBy` / `specDrift` of `Spec/Grid.lean`).
 * `c12_*` — readings: what `specMoveBy` says in Prop form.
+* `C12_inactive_mover`, `C12_moves_any` — calls made for an agent that is NOT active (judge `specMoveAny`): the
+  call raises or returns with the world unchanged, for every action value; both cases together.
+* `inactive_mover_outcome` (`inactive_move_outcome`, `inactive_cross_outcome`, `inactive_drift_outcome`) — which
+  of the two it is: `KeyError` exactly when an attempt would have been carried out (`World.wouldMove`).
 -/
 namespace Abmarl
 open World
